@@ -22,6 +22,9 @@ type c13path struct {
 	Mount    string `json:"mount_point"`
 	Cause    string `json:"cause"`
 	Payload  string `json:"will_payload"`
+	// Dev: exactly one answer of the environment (a broker-to-client write, a log append, an inter-node call) returns 1.5 s
+	// after taking effect; installed once the watchers are in place
+	Dev *Deviation `json:"one_late_answer,omitempty"`
 }
 
 func c13paths() []c13path {
@@ -32,7 +35,7 @@ func c13paths() []c13path {
 		for _, ws := range [][]int{{2, 3}, {3}, {2}} {
 			for _, c := range []string{"leave", "leave-detected-500ms-apart"} {
 				for _, mp := range []string{"", "m1"} {
-					out = append(out, c13path{3, ws, "w", 1, false, mp, c, "last-words"})
+					out = append(out, c13path{3, ws, "w", 1, false, mp, c, "last-words", nil})
 				}
 			}
 		}
@@ -59,18 +62,30 @@ func c13paths() []c13path {
 								if c == "leave-detected-500ms-apart" && n < 3 {
 									continue
 								}
-								out = append(out, c13path{n, ws, tp, q, r, mp, c, "last-words"})
+								out = append(out, c13path{n, ws, tp, q, r, mp, c, "last-words", nil})
 								if q == 1 {
-									out = append(out, c13path{n, ws, tp, q, r, mp, c, ""}) // an empty will payload is legal (retained: it also clears the topic)
+									out = append(out, c13path{n, ws, tp, q, r, mp, c, "", nil}) // an empty will payload is legal (retained: it also clears the topic)
 								}
 								if q == 1 && !r && tp == "w" {
 									// a will larger than what one gossip datagram carries (memberlist's budget is 1400 bytes)
-									out = append(out, c13path{n, ws, tp, q, r, mp, c, strings.Repeat("last-words-", 200)})
+									out = append(out, c13path{n, ws, tp, q, r, mp, c, strings.Repeat("last-words-", 200), nil})
 								}
 							}
 						}
 					}
 				}
+			}
+		}
+	}
+	// one late answer, everywhere: two nodes, watchers on both, under every cause that owes a will
+	for _, c := range []string{"drop", "keepalive", "protocol-error", "leave"} {
+		for _, q := range []int32{0, 1} {
+			for k := 1; k <= 16; k++ {
+				out = append(out, c13path{2, []int{1, 2}, "w", q, false, "", c, "last-words", &Deviation{"client-write", k, 1500 * time.Millisecond}})
+			}
+			for k := 1; k <= 3; k++ {
+				out = append(out, c13path{2, []int{1, 2}, "w", q, false, "", c, "last-words", &Deviation{"log-append", k, 1500 * time.Millisecond}})
+				out = append(out, c13path{2, []int{1, 2}, "w", q, false, "", c, "last-words", &Deviation{"rpc", k, 1500 * time.Millisecond}})
 			}
 		}
 	}
@@ -112,6 +127,10 @@ func TestC13Wills(t *testing.T) {
 				fw := w.NewClient("foreign", p.Nodes, AckAll)
 				fw.Connect(ConnectOpts{ClientID: "foreign", KeepAlive: 600, User: foreign})
 				fw.Subscribe(1, 1, "#")
+				if p.Dev != nil {
+					w.Step()
+					w.SetDeviation(p.Dev)
+				}
 				if p.Cause == "disconnect-then-leave-reordered-gossip" {
 					w.Step()
 					w.GossipHold = func(int) bool { return true } // the dying session's record and its removal travel late
@@ -248,6 +267,9 @@ func TestC13Wills(t *testing.T) {
 						viol("c13-will-of-other-tenant-session:"+p.Cause, "the other tenant's watcher received its own tenant's will %d time(s), expected %d: %s", own, wantOwn, fw.InboxDigest())
 						return
 					}
+				}
+				if p.Dev != nil && w.DeviationFired() {
+					rep.Extra["runs_with_one_late_answer"] = asInt(rep.Extra["runs_with_one_late_answer"]) + 1
 				}
 				if !strings.HasPrefix(p.Cause, "disconnect") {
 					MarkNontrivial(fmt.Sprintf("%+v", p))
